@@ -89,10 +89,6 @@ def atomLine (a : XAtom) : Str :=
 def frameLines (f : Frame) : List Str :=
   [natStr f.atoms.length, f.comment] ++ f.atoms.map (atomLine tt)
 
-def joinLines : List Str → Str
-  | [] => []
-  | l :: ls => l ++ '\n' :: joinLines ls
-
 def writeText (fs : List Frame) : Str := joinLines (fs.flatMap (frameLines tt))
 
 end writer
